@@ -37,7 +37,7 @@ CHECKS = {
                 note='Kernel simulated for the main workload (the soak uses the real one); EAGAIN == EWOULDBLOCK on Linux; connect completions are generated >= 3 ms away from the timeout (ties not generated).'),
     'C07': dict(level='exploration', ref='4/C07',
                 technique='runtime monitoring: every byte visible through netbuf_read_peek compared with the peer\'s keyed stream, every byte accepted by the interposed send compared with the concatenation of the writes; exactly-once callbacks; ASan+UBSan',
-                text='16,000 (quick) / 300,000 (thorough) simulated-kernel histories (plus a real-kernel soak of 640 / 9,600 socketpair cases) of wait(k)/peek/consume(j)/cancel (consume also while a wait is outstanding on the network; impossible sizes up to SIZE_MAX must be refused) with k from 1 to 20000 (growth and compaction of the 4096-byte buffer) and of reserve/consume/write with sizes 0..50000, crossed with segmentations, EAGAIN/EINTR patterns, EOF and failure offsets (incl. early ones that hit small uncoalesced buffers); one case in eight puts a reader and a writer on one descriptor and tears one of them down while the other has an operation outstanding; one case in three runs over the function-pointer (TLS) transport; a reader is used again after EOF for the bytes still buffered; a third build is the MSG_NOSIGNAL work-around.',
+                text='16,000 (quick) / 300,000 (thorough) simulated-kernel histories (plus a real-kernel soak of 640 / 9,600 socketpair cases) of wait(k)/peek/consume(j)/cancel (consume also while a wait is outstanding on the network; impossible sizes up to SIZE_MAX must be refused) with k from 1 to 20000 (growth and compaction of the 4096-byte buffer) and of reserve/consume/write with sizes 0..50000, crossed with segmentations, EAGAIN/EINTR patterns, EOF and failure offsets (incl. early ones that hit small uncoalesced buffers); one case in eight puts a reader and a writer on one descriptor and tears one of them down while the other has an operation outstanding; one case in three runs over the function-pointer (TLS) transport; a reader is used again after EOF for the bytes still buffered; every writer scenario keeps a second writer on its own healthy descriptor whose reservations overlap those of the writer under test (reserve W, reserve W2, consume W, consume W2) and whose peer stream is checked as well; a third build is the MSG_NOSIGNAL work-around.',
                 note='Kernel simulated. After EOF/error is reported the reader is not used further.'),
     'C08': dict(level='exploration', ref='4/C08',
                 technique='runtime monitoring: ASan/UBSan + abort/assert/signal detection + callback counter + range checks on struct http_response made while reading every header string and body byte + live-block count of a tracking allocator + pending-after-close detector, over structured mutations of generated responses on the simulated kernel',
